@@ -5,6 +5,7 @@ from ..runner import Result
 from ..smt import Obligation
 from ..terms import Const
 from . import e3sets
+from ..e2 import isolated
 
 SPEC = os.path.join(extract.VERIF, "contracts", "c15.vspec")
 CC = "voronoi/convex_cell.rs"
@@ -109,6 +110,7 @@ def run(tier, seed):
     return results, meta
 
 
+@isolated('accessors')
 def accessor_obligations(prefix):
     """'Neighbour and shift accessors agree with the face integrals': for every face f of a cell with face data, neighbour(f) / shift(f) /
     clipping_plane(f) read the half-space faces[f].clipping_plane, the very half-space FaceIntegrator::init labels the face integral of that
